@@ -207,6 +207,7 @@ fn worker<P: Property>(args: &Args) -> i32 {
             }
         }
         res.runs += 1;
+        panics::set_log_level_for_run(i);
         trace_reset();
         let mut verdict = P::execute(&scn, &mut res.stats);
         // a panic whose site is harness code is the harness's own fault, never a violation: the run is set aside and
@@ -425,6 +426,7 @@ fn replay<P: Property>(path: &str) -> i32 {
     }
     redirect_stdout(&format!("{}.console.{}", path, std::process::id()));
     panics::install_panic_hook();
+    panics::set_log_level_for_run(rep.index);
     let mut st = Stats::new();
     let v = P::execute(&rep.scenario, &mut st);
     let _ = std::fs::remove_file(format!("{}.console.{}", path, std::process::id()));
